@@ -1,50 +1,80 @@
 /-
-C20 — CSV import followed by CSV export reproduces the cell grid (thin: decision logic only).
-`pyFloat`, `norm`, `render` are arbitrary (third-party behaviour); the numeric clause needs
-`parse (render x) = x`, stated as a hypothesis where used.
+C20 — CSV import followed by CSV export reproduces the cell grid.
+
+Three layers, each with its own model and its own tie to the code:
+  1. the CSV codec both tools use (`Model/CsvCodec.lean`: `csv.writer` / `csv.reader` of the excel dialect as
+     CPython's `_csv.c` implements them, over a file opened with `newline=""`): `csv_codec_roundtrip`;
+  2. the converter and the exporter (`Model/Csv.lean`): per-cell theorems and the whole-grid theorem
+     `grid_roundtrip` for every combination of header / --no-header, --whitespace, --reverse;
+  3. `main()` of csv2numbers with every external call as a parameter (`Model/CsvMain.lean`): `converter_total`,
+     `converter_escapes`.
+`pyFloat` (what `float(v.replace(",", ""))` does), `norm` (`re.sub(r"\s+", " ", v.strip())`) and `render` (how the
+exporter prints a stored number) are arbitrary; the numeric clause needs `parse (render x) = x`, a hypothesis
+where used.  Saving and reopening the document is the identity on cells here: that is C01's statement.
 -/
-import NumbersModel.Model.Csv
-import Mathlib.Data.List.Nodup
+import NumbersModel.Lemmas.Csv
+import NumbersModel.Lemmas.CsvCodec
+import NumbersModel.Lemmas.CsvMain
 namespace NumbersModel.Props.C20
-open NumbersModel NumbersModel.Csv
+open NumbersModel NumbersModel.Csv NumbersModel.CsvCodec NumbersModel.CsvMain
 
 variable {ν : Type}
 
-theorem dictSet_fresh {κ} [DecidableEq κ] (d : List (κ × Text)) (k : κ) (v : Text)
-    (h : k ∉ d.map Prod.fst) : dictSet d k v = d ++ [(k, v)] := by
-  induction d with
-  | nil => rfl
-  | cons a r ih =>
-    simp only [List.map_cons, List.mem_cons, not_or] at h
-    simp only [dictSet, List.cons_append]
-    rw [if_neg (fun e => h.1 e.symm), ih h.2]
+/-! ## 1. the codec -/
 
-theorem dictZip_go {κ} [DecidableEq κ] (kvs acc : List (κ × Text))
-    (hn : (acc.map Prod.fst ++ kvs.map Prod.fst).Nodup) :
-    kvs.foldl (fun d kv => dictSet d kv.1 kv.2) acc = acc ++ kvs := by
-  induction kvs generalizing acc with
-  | nil => simp
-  | cons a r ih =>
-    simp only [List.foldl_cons]
-    have hfresh : a.1 ∉ acc.map Prod.fst := by
-      intro hm
-      rw [List.nodup_append] at hn
-      exact hn.2.2 a.1 hm a.1 (by simp) rfl
-    rw [dictSet_fresh acc a.1 a.2 hfresh, ih]
-    · simp
-    · simpa [List.map_append, List.append_assoc] using hn
+/-- Whatever grid of Unicode cell texts is written with `csv.writer(dialect="excel")` (one `writerow` per row) is read
+    back unchanged by `csv.reader(dialect=excel)` over a `newline=""` file, strict or not: quotes, commas, CR, LF,
+    CRLF inside cells, empty cells, leading/trailing blanks, empty rows, rows that are a single empty cell.
+    The only precondition is the module-wide field size limit (131072 characters by default). -/
+theorem csv_codec_roundtrip (cfg : Cfg) (hit : cfg.iterFails = none) (grid : List (List Text))
+    (hlim : ∀ row ∈ grid, ∀ f ∈ row, f.length ≤ cfg.limit) :
+    readGrid cfg (writeGrid grid) = .ok grid := by
+  rw [readGrid_eq_run]; exact run_writeGrid cfg hit grid hlim
+
+/-- the line-by-line reader (physical lines of a `newline=""` file, EOL after each) is one pass over the characters -/
+theorem reader_is_character_machine (cfg : Cfg) (t : Text) : readGrid cfg t = run cfg Rd.reset false t :=
+  readGrid_eq_run cfg t
+
+/-- the reader raises only `csv.Error` (one of its four messages), or what the file iterator raised -/
+theorem reader_errors (cfg : Cfg) (t : Text) (e : PyExc) (h : readGrid cfg t = .error e) :
+    e = errDelimExpected ∨ e = errUnexpectedEnd ∨ e = errNewlineInUnquoted ∨ e = errFieldLimit ∨
+      cfg.iterFails = some e := by
+  rcases readGrid_err h with hm | hf
+  · simp only [isModelCsvError, Bool.or_eq_true, beq_iff_eq] at hm
+    rcases hm with ((h1 | h2) | h3) | h4
+    · exact Or.inl h1
+    · exact Or.inr (Or.inl h2)
+    · exact Or.inr (Or.inr (Or.inl h3))
+    · exact Or.inr (Or.inr (Or.inr (Or.inl h4)))
+  · exact Or.inr (Or.inr (Or.inr (Or.inr hf)))
+
+/-- the "exception" that is none: a row that is one empty cell is written `""` (quoted) and comes back as one empty
+    cell; an empty row is written as an empty line and comes back as an empty row.  Unquoted, the single empty
+    cell would be the empty line, i.e. the empty row — that is why `csv_writerow` quotes it. -/
+example : writeGrid [[[]]] = "\"\"\r\n".toList ∧ readGrid ⟨true, 131072, none⟩ "\"\"\r\n".toList = .ok [[[]]] := by decide
+example : writeGrid [[]] = "\r\n".toList ∧ readGrid ⟨true, 131072, none⟩ "\r\n".toList = .ok [[]] := by decide
+/-- non-vacuity: a hostile grid -/
+example : readGrid ⟨true, 131072, none⟩
+    (writeGrid [["a,b".toList, "say \"hi\"".toList], ["l1\r\nl2".toList, [], " x ".toList], [], [[]], ["\r".toList]])
+    = .ok [["a,b".toList, "say \"hi\"".toList], ["l1\r\nl2".toList, [], " x ".toList], [], [[]], ["\r".toList]] := by
+  decide
+/-- the written text of that grid's first two rows -/
+example : writeGrid [["a,b".toList, "say \"hi\"".toList], ["l1\r\nl2".toList, [], " x ".toList]]
+    = "\"a,b\",\"say \"\"hi\"\"\"\r\n\"l1\r\nl2\",, x \r\n".toList := by decide
+/-- malformed input: strict refuses text after a closing quote, non-strict appends it; the field limit -/
+example : readGrid ⟨true, 131072, none⟩ "\"a\"b".toList = .error errDelimExpected ∧
+    readGrid ⟨false, 131072, none⟩ "\"a\"b".toList = .ok [["ab".toList]] ∧
+    readGrid ⟨true, 131072, none⟩ "\"a".toList = .error errUnexpectedEnd ∧
+    readGrid ⟨false, 2, none⟩ "abc".toList = .error errFieldLimit ∧
+    readLineList ⟨false, 9, none⟩ ["a\rb".toList] = .error errNewlineInUnquoted := by decide
+
+/-! ## 2. converter and exporter -/
 
 /-- with pairwise distinct column keys, a row survives the dict round trip
     (`dict(zip(header, row)).values() == row`): no cell is dropped, moved or merged. -/
 theorem row_survives_dict {κ} [DecidableEq κ] (header : List κ) (row : List Text)
     (hn : header.Nodup) (hl : header.length = row.length) :
-    (dictZip header row).map Prod.snd = row := by
-  unfold dictZip
-  have hk : (header.zip row).map Prod.fst = header := by
-    rw [List.map_fst_zip]; omega
-  rw [dictZip_go (header.zip row) [] (by simpa [hk] using hn)]
-  simp only [List.nil_append]
-  rw [List.map_snd_zip]; omega
+    (dictZip header row).map Prod.snd = row := dictZip_values header row hn hl
 
 /-- the defect recorded as a known finding: a repeated header cell merges two columns. -/
 example : (dictZip ["h".toList, "h".toList] ["a".toList, "b".toList]).map Prod.snd = ["b".toList] := by decide
@@ -72,37 +102,170 @@ theorem coerce_total (pyFloat : Text → FloatCls ν) (v : Text) :
   unfold coerce
   cases h : pyFloat v <;> simp
 
-/-- whole-grid statement (header mode, no options): with distinct header cells and rectangular
-    rows the exported grid has the header unchanged and every data cell as above. -/
-theorem grid_roundtrip_header (pyFloat : Text → FloatCls ν) (norm : Text → Text) (render : ν → Text)
-    (header : List Text) (data : List (List Text)) (hn : header.Nodup)
-    (hrect : ∀ r ∈ data, r.length = header.length) :
-    exportGrid render (convert pyFloat norm ⟨false, false, false⟩ (header :: data)) =
-      header :: data.map (·.map (fun v => exportCell render (coerce pyFloat v))) := by
-  simp only [convert, exportGrid, List.map_cons, List.map_map, Bool.false_eq_true, if_false]
-  congr 1
-  · simp [Function.comp_def, exportCell]
-  · apply List.map_congr_left
-    intro r hr
-    simp only [Function.comp_def, dataRow, Bool.false_eq_true, if_false, List.map_map]
-    have := row_survives_dict header r hn (hrect r hr).symm
-    conv => rhs; rw [← this]
-    simp [List.map_map, Function.comp_def]
+/-- Whole-grid statement for every combination of header / --no-header, --whitespace, --reverse, over TEXT:
+    let `csvText` be any CSV file text that the importer's reader parses to a rectangular grid of at least one
+    column (header cells pairwise distinct in header mode — see the counter-example below).  Then
+    csv2numbers followed by cat-numbers -b prints a text that `csv.reader` parses to `expectedGrid`: the header
+    row unchanged, the data rows in file order (reversed under --reverse), each data cell `cellOut`, i.e.
+    `exportCell render (coerce pyFloat v')` with `v'` the (whitespace-normalised) cell — which the four theorems
+    above describe: text identical, special spellings identical, numbers numerically equal. -/
+theorem grid_roundtrip (cfg cfg' : Cfg) (hit' : cfg'.iterFails = none)
+    (pyFloat : Text → FloatCls ν) (norm : Text → Text) (render : ν → Text) (o : Opts)
+    (csvText : Text) (grid : List (List Text)) (w : Nat)
+    (hread : readGrid cfg csvText = .ok grid)
+    (hne : grid ≠ []) (hw : 1 ≤ w) (hrect : ∀ r ∈ grid, r.length = w)
+    (hdistinct : o.noHeader = false → ∀ header ∈ grid.head?, header.Nodup)
+    (hlim : ∀ r ∈ expectedGrid pyFloat norm render o grid, ∀ f ∈ r, f.length ≤ cfg'.limit) :
+    ∃ out, importExport cfg pyFloat norm render o csvText = .ok out ∧
+      readGrid cfg' out = .ok (expectedGrid pyFloat norm render o grid) := by
+  obtain ⟨table, hconv, hexp⟩ := export_convert pyFloat norm render o grid w hne hw hrect hdistinct
+  refine ⟨writeGrid (exportGrid render (padTable table)), ?_, ?_⟩
+  · simp only [importExport, hread, hconv]
+  · rw [hexp]; exact csv_codec_roundtrip cfg' hit' _ hlim
+
+/-- the same, starting from a grid: the CSV file is what `csv.writer` writes for it -/
+theorem grid_roundtrip_written (cfg cfg' : Cfg) (hit : cfg.iterFails = none) (hit' : cfg'.iterFails = none)
+    (pyFloat : Text → FloatCls ν) (norm : Text → Text) (render : ν → Text) (o : Opts)
+    (grid : List (List Text)) (w : Nat)
+    (hne : grid ≠ []) (hw : 1 ≤ w) (hrect : ∀ r ∈ grid, r.length = w)
+    (hdistinct : o.noHeader = false → ∀ header ∈ grid.head?, header.Nodup)
+    (hlim0 : ∀ r ∈ grid, ∀ f ∈ r, f.length ≤ cfg.limit)
+    (hlim : ∀ r ∈ expectedGrid pyFloat norm render o grid, ∀ f ∈ r, f.length ≤ cfg'.limit) :
+    ∃ out, importExport cfg pyFloat norm render o (writeGrid grid) = .ok out ∧
+      readGrid cfg' out = .ok (expectedGrid pyFloat norm render o grid) :=
+  grid_roundtrip cfg cfg' hit' pyFloat norm render o (writeGrid grid) grid w
+    (csv_codec_roundtrip cfg hit grid hlim0) hne hw hrect hdistinct hlim
 
 /-- `--reverse` reverses exactly the data rows; `--no-header` treats every row as data. -/
 theorem reverse_reverses_data (pyFloat : Text → FloatCls ν) (norm : Text → Text) (ws : Bool)
     (header : List Text) (data : List (List Text)) :
     convert pyFloat norm ⟨false, true, ws⟩ (header :: data) =
-      header.map Cell.text :: (data.reverse).map (dataRow pyFloat norm ⟨false, true, ws⟩ header) := by
+      .ok (header.map Cell.text :: (data.reverse).map (dataRow pyFloat norm ⟨false, true, ws⟩ header)) := by
   simp [convert]
+
+/-- the explicit exception of `grid_roundtrip` in header mode (known finding
+    csv-duplicate-header-collapses-columns): with a repeated header cell the exported grid differs -/
+example : importExport ⟨true, 131072, none⟩ (fun _ => (FloatCls.valueError : FloatCls Nat)) id (fun n => natStr n)
+    ⟨false, false, false⟩ "h,h\r\na,b\r\n".toList = .ok "h,h\r\nb,\r\n".toList := by decide
 
 /-! ### the defect of the pinned commit: nan / inf reach `Table.write`, which raises ValueError -/
 example : coercePinned (fun _ => (FloatCls.nan : FloatCls Nat)) "nan".toList = .error .ValueError := rfl
 
-/-! ### non-vacuity -/
-example : exportGrid (fun (n : Nat) => natStr n)
-    (convert (fun v => if v = "12".toList then FloatCls.finite 12 else if v = "nan".toList then .nan else .valueError)
-      id ⟨false, false, false⟩ [["a".toList, "b".toList], ["12".toList, "nan".toList], ["x,y".toList, "".toList]])
-    = [["a".toList, "b".toList], ["12".toList, "nan".toList], ["x,y".toList, "".toList]] := by decide
+/-! ### non-vacuity of `grid_roundtrip`: all eight option combinations on one text -/
+def demoFloat (v : Text) : FloatCls Nat :=
+  if v = "12".toList then .finite 12 else if v = "nan".toList then .nan else .valueError
+def demoNorm (v : Text) : Text := v.filter (· ≠ ' ')
+def demoText : Text := "a,\"b\r\nc\"\r\n12,nan\r\n\"x,y\", 12 \r\n".toList
+
+example : readGrid ⟨true, 131072, none⟩ demoText =
+    .ok [["a".toList, "b\r\nc".toList], ["12".toList, "nan".toList], ["x,y".toList, " 12 ".toList]] := by decide
+example : importExport ⟨true, 131072, none⟩ demoFloat demoNorm natStr ⟨false, false, false⟩ demoText = .ok demoText := by
+  decide
+example : importExport ⟨true, 131072, none⟩ demoFloat demoNorm natStr ⟨false, true, true⟩ demoText =
+    .ok "a,\"b\r\nc\"\r\n\"x,y\",12\r\n12,nan\r\n".toList := by decide
+example : importExport ⟨true, 131072, none⟩ demoFloat demoNorm natStr ⟨true, true, false⟩ demoText =
+    .ok "\"x,y\", 12 \r\n12,nan\r\na,\"b\r\nc\"\r\n".toList := by decide
+example : importExport ⟨true, 131072, none⟩ demoFloat demoNorm natStr ⟨true, false, true⟩ demoText =
+    .ok "a,\"b\r\nc\"\r\n12,nan\r\n\"x,y\",12\r\n".toList := by decide
+
+/-! ## 3. `main()` -/
+
+/-- Conversion either succeeds or reports a one-line error and a non-zero exit status: if the external calls raise
+    only what the code handles (`Tame`: opening/reading the file raises FileNotFoundError, csv.Error, OSError,
+    UnicodeError or LookupError; `Document(…)`/`table.write` do not raise; `doc.save` raises OSError;
+    RuntimeError anywhere), then `main()` returns normally with nothing on stderr (exit status 0), or prints exactly one
+    line to stderr and exits with status 1.  Whatever the CSV text is: malformed text is a `csv.Error`
+    (`reader_errors`), an empty file and an oversize grid are refused with RuntimeError. -/
+theorem converter_total (c : Classes) (o : Opts) (args : Args) (files : List (FileExt ν))
+    (hv : args.version = false) (hf : files ≠ []) (ht : ∀ x ∈ files, Tame c x) :
+    main fixed c o args files = .ok ⟨0, 0, 0⟩ ∨ main fixed c o args files = .ok ⟨1, 0, 1⟩ := by
+  rcases main_cases c o args files hv hf with h | h | ⟨e, _, x, hx, hd | ⟨hnc, hr⟩⟩
+  · exact Or.inl h
+  · exact Or.inr h
+  · rw [(ht x hx).derive] at hd; cases hd
+  · exact absurd (tame_raised (ht x hx) hr) hnc
+
+/-- … and precisely which exceptions leave `main()` as a traceback, for ANY behaviour of the external calls:
+    only an exception raised by `Path.with_suffix` (outside the `try`), or one that is not a RuntimeError and was
+    raised by `open`/the file iterator without being FileNotFoundError, csv.Error, OSError, UnicodeError or
+    LookupError, by `Document(…)`, by `table.write`, or by `doc.save` without being OSError. -/
+theorem converter_escapes (c : Classes) (o : Opts) (args : Args) (files : List (FileExt ν))
+    (hv : args.version = false) (hf : files ≠ []) (e : PyExc) (h : main fixed c o args files = .error e) :
+    ∃ x ∈ files, x.deriveOutput = .error e ∨ (¬ Caught c e ∧ RaisedBy c x e) := by
+  rcases main_cases c o args files hv hf with h' | h' | ⟨e', he', x, hx, hr⟩
+  · rw [h'] at h; cases h
+  · rw [h'] at h; cases h
+  · rw [he'] at h; cases h; exact ⟨x, hx, hr⟩
+
+/-- `-V` prints the version and exits with status 0 -/
+theorem version_exits_zero (v : Variant) (c : Classes) (o : Opts) (args : Args) (files : List (FileExt ν))
+    (hv : args.version = true) : main v c o args files = .ok ⟨0, 1, 0⟩ := by
+  simp [main, hv]
+
+/-! ### witnesses: a well-behaved world, and what the pinned code did -/
+def demoClasses : Classes where
+  isFileNotFound e := e == .Other "FileNotFoundError"
+  isCsvError e := e == .Other "Error"
+  isOSError e := e == .Other "FileNotFoundError" || e == .Other "IsADirectoryError" || e == .Other "OSError"
+  isUnicodeError e := e == .Other "UnicodeDecodeError"
+  isLookupError e := e == .Other "LookupError" || e == .IndexError || e == .KeyError
+  isRuntimeError e := e == .RuntimeError || e == .Other "RecursionError"
+
+/-- `Document(…)` refuses more than 1 000 000 rows / 1000 columns and 0 columns with IndexError -/
+def realDoc (r k : Nat) : PyM Unit := if r > 1000000 ∨ k > 1000 ∨ k = 0 then .error .IndexError else .ok ()
+
+def demoFile (openFile : PyM Content) (saveDoc : PyM Unit := .ok ())
+    (newDocument : Nat → Nat → PyM Unit := fun _ _ => .ok ()) : FileExt Nat where
+  deriveOutput := .ok ()
+  openFile := openFile
+  fieldLimit := 131072
+  pyFloat := demoFloat
+  norm := demoNorm
+  newDocument := newDocument
+  write := fun _ _ _ => .ok ()
+  saveDoc := saveDoc
+
+def demoArgs : Args := ⟨false, some 1, 30⟩
+def hdr : Opts := ⟨false, false, false⟩
+def noHdr : Opts := ⟨true, false, false⟩
+
+/-- success -/
+example : main fixed demoClasses hdr demoArgs [demoFile (.ok ⟨demoText, none⟩)] = .ok ⟨0, 0, 0⟩ := by decide
+/-- malformed CSV (strict reader): one line, exit 1 — fixed and pinned -/
+example : main fixed demoClasses hdr demoArgs [demoFile (.ok ⟨"\"a\"b\r\n".toList, none⟩)] = .ok ⟨1, 0, 1⟩ := by decide
+example : main pinned demoClasses hdr demoArgs [demoFile (.ok ⟨"\"a\"b\r\n".toList, none⟩)] = .ok ⟨1, 0, 1⟩ := by decide
+/-- an empty file: the pinned code lets StopIteration (header mode) / IndexError (--no-header) escape -/
+example : main pinned demoClasses hdr demoArgs [demoFile (.ok ⟨[], none⟩)] = .error stopIteration := by decide
+example : main pinned demoClasses noHdr demoArgs [demoFile (.ok ⟨[], none⟩)] = .error .IndexError := by decide
+example : main fixed demoClasses hdr demoArgs [demoFile (.ok ⟨[], none⟩)] = .ok ⟨1, 0, 1⟩ := by decide
+example : main fixed demoClasses noHdr demoArgs [demoFile (.ok ⟨[], none⟩)] = .ok ⟨1, 0, 1⟩ := by decide
+/-- a directory as input, undecodable bytes, an unwritable output: tracebacks on the pinned code -/
+example : main pinned demoClasses hdr demoArgs [demoFile (.error (.Other "IsADirectoryError"))] =
+    .error (.Other "IsADirectoryError") := by decide
+example : main fixed demoClasses hdr demoArgs [demoFile (.error (.Other "IsADirectoryError"))] = .ok ⟨1, 0, 1⟩ := by decide
+example : main pinned demoClasses hdr demoArgs [demoFile (.ok ⟨"a\r\n".toList, some (.Other "UnicodeDecodeError")⟩)] =
+    .error (.Other "UnicodeDecodeError") := by decide
+example : main fixed demoClasses hdr demoArgs [demoFile (.ok ⟨"a\r\n".toList, some (.Other "UnicodeDecodeError")⟩)] =
+    .ok ⟨1, 0, 1⟩ := by decide
+example : main pinned demoClasses hdr demoArgs [demoFile (.ok ⟨demoText, none⟩) (.error (.Other "FileNotFoundError"))] =
+    .error (.Other "FileNotFoundError") := by decide
+example : main fixed demoClasses hdr demoArgs [demoFile (.ok ⟨demoText, none⟩) (.error (.Other "FileNotFoundError"))] =
+    .ok ⟨1, 0, 1⟩ := by decide
+/-- a blank first line (a header row without cells): the pinned code asks for a table of 0 columns -/
+example : main pinned demoClasses hdr demoArgs [demoFile (.ok ⟨"\r\n".toList, none⟩) (.ok ()) realDoc] = .error .IndexError := by
+  decide
+example : main fixed demoClasses hdr demoArgs [demoFile (.ok ⟨"\r\n".toList, none⟩) (.ok ()) realDoc] = .ok ⟨0, 0, 0⟩ := by
+  decide
+/-- what still escapes (the hypothesis of `converter_total` is needed): e.g. MemoryError while reading -/
+example : main fixed demoClasses hdr demoArgs [demoFile (.error (.Other "MemoryError"))] = .error (.Other "MemoryError") := by
+  decide
+/-- `Tame` is satisfiable -/
+example : Tame demoClasses (demoFile (.ok ⟨demoText, none⟩)) where
+  derive := rfl
+  open_ := by intro e h; cases h
+  iter := by intro content e h hf; cases h; cases hf
+  doc := by intro r k e h; cases h
+  write := by intro r k cell e h; cases h
+  save := by intro e h; cases h
 
 end NumbersModel.Props.C20
